@@ -499,11 +499,9 @@ class Interp:
             else:
                 new = ("model", "array-with", old, (v,))
             keep = [(k, x) for k, x in S.mem.items() if k[0] == base[0] and len(k[1]) > len(base[1]) and k[1][:len(base[1])] == base[1]]
-            ln = S.read((base[0], base[1] + (("len",),)))
             S.write(base, new)
             for k, x in keep:
                 S.mem[k] = x
-            S.mem[(base[0], base[1] + (("len",),))] = ln
             return
         if isinstance(v, tuple) and v[0] in ("agg",) and sv_type(v) is None:
             set_ty(v, tykey(place.ty))
